@@ -13,6 +13,7 @@ From stdpp Require Import gmap list numbers.
 From Coq Require Import ZArith NArith.
 From Verif Require Tx.Store Tx.Ledger Tx.Hist Tx.Node.
 From Verif Require Import Generated.SyncFacts Sync.Sync Sync.SyncProofs Sync.SyncStore.
+From Verif Require Import Sync.BitcoindReorg Sync.BitcoindReorgProofs.
 Local Open Scope Z_scope.
 
 (** What "the wallet is consistent with best chain [c], followed from height
@@ -337,6 +338,112 @@ Proof.
   - eexists. split; [vm_compute; reflexivity|]. split; reflexivity.
 Qed.
 Print Assumptions C15_refuted_at_pinned.
+
+(** * The bitcoind backend as the PRODUCER of the notifications
+
+    With the bitcoind backend it is btcwallet's own client
+    (chain/bitcoind_client.go: ntfnHandler, reorg) that turns the node's new
+    best chain into the BlockConnected / BlockDisconnected stream; the model is
+    Sync/BitcoindReorg.v, the proofs are in Sync/BitcoindReorgProofs.v.
+
+    Premise regenerated from the source (Generated/SyncFacts.v):
+    [bitcoind_reorg_disconnects_own_hash = true] - inside the walk-back loop
+    the next block to disconnect is named by its own hash.  Discharged by
+    [eq_refl]; against a tree where the fact is [false] this file does not
+    compile (see [C15_bitcoind_reorg_refuted_at_pinned]).
+
+    For every block tree that knows both branches (old branch [o :: os] above
+    the common ancestor, tip first; new branch [nhi ++ nsame :: ns], at least
+    as high, pairwise different from the old one at equal heights): handed the
+    new tip, the reorg procedure emits exactly the stream [emit c e] that
+    [C15_follows_evolution] is about - one BlockDisconnected per detached
+    block, tip first, each with its own hash, height and time, then one
+    BlockConnected per block of the new branch upward - and ends on the new
+    tip.  Any depth, any branch lengths. *)
+Theorem C15_bitcoind_reorg_emits_the_evolution : forall t anc o os nhi nsame ns base,
+  let h := tip_height (anc ++ rev (o :: os)) in
+  anc <> [] ->
+  dlinked t (o :: os) h base ->
+  dlinked t (nhi ++ nsame :: ns) (h + Z.of_nat (length nhi)) base ->
+  differ os ns ->
+  let c := anc ++ rev (o :: os) in
+  let e := evo_of (o :: os) (nhi ++ nsame :: ns) in
+  reorg t (meta_of h o) (bh (new_tip nhi nsame)) =
+  Some (emit c e, meta_of (tip_height (apply_evo c e)) (new_tip nhi nsame)) /\
+  apply_evo c e = anc ++ rev (nhi ++ nsame :: ns).
+Proof.
+  intros t anc o os nhi nsame ns base. unfold reorg.
+  rewrite (eq_refl : bitcoind_reorg_disconnects_own_hash = true).
+  exact (reorg_is_emit t anc o os nhi nsame ns base).
+Qed.
+Print Assumptions C15_bitcoind_reorg_emits_the_evolution.
+
+(** Composition with the wallet: a wallet consistent with the old best chain
+    that is handed what the client emits for the new tip ends consistent with
+    the new best chain - synced-to is the new tip, the stored hashes are those
+    of the new chain, no transaction stays confirmed in a detached block. *)
+Theorem C15_wallet_follows_bitcoind_reorg : forall hdr t anc o os nhi nsame ns base lo w,
+  let h := tip_height (anc ++ rev (o :: os)) in
+  let c := anc ++ rev (o :: os) in
+  let e := evo_of (o :: os) (nhi ++ nsame :: ns) in
+  anc <> [] ->
+  dlinked t (o :: os) h base ->
+  dlinked t (nhi ++ nsame :: ns) (h + Z.of_nat (length nhi)) base ->
+  differ os ns ->
+  consistent hdr c lo w -> chain_synced w = true -> valid_evo hdr c lo e ->
+  exists stream best w',
+    reorg t (meta_of h o) (bh (new_tip nhi nsame)) = Some (stream, best) /\
+    m_hash best = bh (new_tip nhi nsame) /\
+    run hdr stream w = (w', false) /\ chain_synced w' = true /\
+    consistent hdr (anc ++ rev (nhi ++ nsame :: ns))
+      (Z.max lo (tip_height (anc ++ rev (nhi ++ nsame :: ns)) - max_reorg_depth + 1)) w'.
+Proof.
+  intros hdr t anc o os nhi nsame ns base lo w. unfold reorg.
+  rewrite (eq_refl : bitcoind_reorg_disconnects_own_hash = true).
+  exact (wallet_follows_bitcoind_reorg hdr t anc o os nhi nsame ns base lo w eq_refl).
+Qed.
+Print Assumptions C15_wallet_follows_bitcoind_reorg.
+
+(** What the pinned code did (fact [false]): old branch 4,5 above block 3, new
+    branch 6,7,8: the second BlockDisconnected carries hash 3 - the common
+    ancestor's - at height 3 instead of hash 4; the wallet ignores a
+    disconnect whose hash is not the one it stored, so the transactions of
+    block 4 stayed confirmed there (replay corpus/C15/bd_*.json). *)
+Theorem C15_bitcoind_reorg_refuted_at_pinned :
+  reorg_with false t_ex {| m_height := 4; m_hash := 5%N; m_time := 104 |} 8%N =
+  Some ([NDisconnect {| m_height := 4; m_hash := 5%N; m_time := 104 |};
+         NDisconnect {| m_height := 3; m_hash := 3%N; m_time := 103 |};
+         NConnect {| m_height := 3; m_hash := 6%N; m_time := 113 |};
+         NConnect {| m_height := 4; m_hash := 7%N; m_time := 114 |};
+         NConnect {| m_height := 5; m_hash := 8%N; m_time := 115 |}],
+        {| m_height := 5; m_hash := 8%N; m_time := 115 |}) /\
+  reorg_with true t_ex {| m_height := 4; m_hash := 5%N; m_time := 104 |} 8%N =
+  Some ([NDisconnect {| m_height := 4; m_hash := 5%N; m_time := 104 |};
+         NDisconnect {| m_height := 3; m_hash := 4%N; m_time := 103 |};
+         NConnect {| m_height := 3; m_hash := 6%N; m_time := 113 |};
+         NConnect {| m_height := 4; m_hash := 7%N; m_time := 114 |};
+         NConnect {| m_height := 5; m_hash := 8%N; m_time := 115 |}],
+        {| m_height := 5; m_hash := 8%N; m_time := 115 |}).
+Proof. exact reorg_refuted_at_pinned. Qed.
+Print Assumptions C15_bitcoind_reorg_refuted_at_pinned.
+
+(** The premises of [C15_bitcoind_reorg_emits_the_evolution] are satisfiable:
+    the tree above, ancestor chain 1,2,3, old branch 5,4, new branch 8,7,6. *)
+Example C15_bitcoind_nonvacuous :
+  let b (i : N) (tm : Z) := {| bh := i; bt := tm |} in
+  let anc := [b 1%N 100; b 2%N 101; b 3%N 102] in
+  tip_height (anc ++ rev [b 5%N 104; b 4%N 103]) = 4 /\
+  anc <> [] /\
+  dlinked t_ex [b 5%N 104; b 4%N 103] 4 3%N /\
+  dlinked t_ex ([b 8%N 115] ++ b 7%N 114 :: [b 6%N 113]) (4 + 1) 3%N /\
+  differ [b 4%N 103] [b 6%N 113].
+Proof.
+  cbv zeta. split; [reflexivity|]. split; [discriminate|].
+  split; [|split].
+  - repeat split; vm_compute; reflexivity.
+  - repeat split; vm_compute; reflexivity.
+  - split; [discriminate|exact I].
+Qed.
 
 (** * Non-vacuity *)
 
